@@ -88,3 +88,60 @@ example : (run S.init demo2).1.wirePins 0 = [.outer 0 1] ∧ (run S.init demo2).
 example : (S.partner (run S.init (demo2.take 14)).1 0 2 0) = some 1 := by decide
 
 end Spydr.IR
+
+namespace Spydr.IR
+
+theorem lookup_zip_getElem (l1 l2 : List OId) (h1 : l1.Nodup) (k : Nat) (a b : OId)
+    (ha : l1[k]? = some a) (hb : l2[k]? = some b) : (l1.zip l2).lookup a = some b := by
+  induction l1 generalizing l2 k with
+  | nil => simp at ha
+  | cons x xs ih =>
+    cases l2 with
+    | nil => simp at hb
+    | cons y ys =>
+      cases k with
+      | zero =>
+        simp only [List.getElem?_cons_zero, Option.some.injEq] at ha hb
+        subst ha; subst hb
+        simp [List.zip_cons_cons]
+      | succ k =>
+        simp only [List.getElem?_cons_succ] at ha hb
+        have hne : a ≠ x := by
+          intro e; subst e
+          exact (List.nodup_cons.1 h1).1 (List.mem_of_getElem? ha)
+        simp only [List.zip_cons_cons, List.lookup_cons]
+        have : (a == x) = false := by simpa using hne
+        rw [this]
+        exact ih ys (List.nodup_cons.1 h1).2 k ha hb
+
+/-- "the corresponding pin" is positional: the inner pin at position `k` of `d` (ports in order, bits in
+    order) corresponds to the inner pin at position `k` of `d'`. -/
+theorem partner_positional (s : S) (h : Inv s) (d d' : OId) (k : Nat) (q q' : OId)
+    (hq : (s.flat d)[k]? = some q) (hq' : (s.flat d')[k]? = some q') : s.partner d d' q = some q' :=
+  lookup_zip_getElem _ _ (flat_nodup s h d) k q q' hq hq'
+
+/-- under equal shapes EVERY outer pin of the instance has a corresponding pin, so
+    `repoint_keeps_connections` applies to every connection of the instance. -/
+theorem partner_total (s : S) (h : Inv s) (i d d' q : OId) (hi : s.instRef i = some d)
+    (hs : s.shape d = s.shape d') (hq : q ∈ s.instPins i) : ∃ q', s.partner d d' q = some q' := by
+  have hm : q ∈ s.flat d := by
+    obtain ⟨p, hp, hqp⟩ := (h.mirror i d hi q).1 hq
+    simp only [S.flat, List.mem_flatMap]
+    exact ⟨p, (h.ports_iff d p).2 hp, (h.pins_iff p q).2 hqp⟩
+  exact lookup_zip_of_mem _ _ (flat_length_of_shape s d d' hs) q hm
+
+/-- re-pointing keeps EVERY connection of the instance (packaged form) -/
+theorem repoint_keeps_all_connections (s : S) (h : Inv s) (i d d' : OId)
+    (hi : s.instRef i = some d) (hs : s.shape d = s.shape d') :
+    (step s (.setRef i (some d'))).2 = .ok ∧
+    ∀ q ∈ s.instPins i, ∃ q', s.partner d d' q = some q' ∧
+      (step s (.setRef i (some d'))).1.opWire i q' = s.opWire i q ∧
+      (∀ w, PinRef.outer i q ∈ s.wirePins w → PinRef.outer i q' ∈ (step s (.setRef i (some d'))).1.wirePins w) := by
+  refine ⟨?_, ?_⟩
+  · simp [step, S.setRefStep, hi, hs]
+  · intro q hq
+    obtain ⟨q', hp⟩ := partner_total s h i d d' q hi hs hq
+    have r := repoint_keeps_connections s h i d d' q q' hi hs hp
+    exact ⟨q', hp, r.2.1, r.2.2⟩
+
+end Spydr.IR
